@@ -30,6 +30,11 @@ func config(name string) pmc.Cfg {
 		base.Name, base.Heights = name, 2
 		return base
 	}
+	if i := strings.Index(name, "~r"); i >= 0 { // "K0~r@v1": the flush macro delivers a node's pending messages in reverse canonical order (COMMITs first, proposal last)
+		base := config(name[:i] + name[i+2:])
+		base.Name, base.RevOrder = name, true
+		return base
+	}
 	if strings.HasSuffix(name, "~d") { // "K1~d": storage returns multi-element results in DESCENDING sender order
 		base := config(strings.TrimSuffix(name, "~d"))
 		base.Name, base.Desc = name, true
@@ -268,6 +273,8 @@ func plan(prop, tier string) []run {
 		if prop == "C11" || !q {
 			add("K0@v1", "M0", 0, mul*40*time.Second) // four correct members, one view change: exhaustive
 		}
+		add("K0~r@v1", "M0", 0, mul*40*time.Second)   // four correct members, one view change, reverse flush order (COMMITs before PREPAREs before the proposal): exhaustive
+		add("K1~r", "M1", 0, mul*25*time.Second)      // the first configuration of this list under the reverse flush order
 		add("K10x@v2", "M1", 0, mul*15*time.Second)   // the same committee with commit callbacks that fail: the heavy member is prepared by its proposal alone, stays in the height and takes part in view changes
 		add("K1@v0a", "MCS", 0, mul*10*time.Second)  // Byzantine COMMITs that carry a correct member's random-seed share: exhaustive
 		add("K1@v1a", "MNC", 0, mul*10*time.Second) // the adversary's own messages signed over non-canonical header encodings: exhaustive
